@@ -124,6 +124,8 @@ def main():
             if files:
                 shutil.copyfile(os.path.join(rp, files[0]), os.path.join(dst, "replay-%s.json" % prop))
         print("%s against %s: exit %d %s" % (prop, a.id, p.returncode, sigs[:2]))
+        if p.returncode not in (0, 1):
+            print(p.stderr[-3000:])
         shutil.rmtree(w, ignore_errors=True)
     # keep the latest result per property from earlier intake runs
     mp0 = os.path.join(dst, "meta.json")
